@@ -2,6 +2,7 @@
 
 Everything is keyed on a content hash of the /repo sources so a changed tree always rebuilds.
 """
+import fcntl
 import hashlib, os, re, shutil, subprocess, sys, time
 from concurrent.futures import ThreadPoolExecutor
 
@@ -95,7 +96,26 @@ def tree_root():
     return root
 
 
+class _BuildLock:
+    """Builds of the same tree by concurrent check.py processes take turns (one lock file per build directory)."""
+
+    def __enter__(self):
+        os.makedirs(os.path.join(VERIF, "build"), exist_ok=True)
+        self.f = open(os.path.join(VERIF, "build", ".lock"), "w")
+        fcntl.flock(self.f, fcntl.LOCK_EX)
+        return self
+
+    def __exit__(self, *a):
+        fcntl.flock(self.f, fcntl.LOCK_UN)
+        self.f.close()
+
+
 def build_flavour(flavour, jobs=16):
+    with _BuildLock():
+        return _build_flavour(flavour, jobs)
+
+
+def _build_flavour(flavour, jobs=16):
     """Compile all src/**/*.cc into <root>/<flavour>/libpistache.a; returns the archive path."""
     root = tree_root()
     odir = os.path.join(root, flavour)
@@ -128,10 +148,15 @@ def build_flavour(flavour, jobs=16):
 
 
 def build_harness(name, sources, flavour, extra_flags=(), c_sources=(), link_lib=True, defines=()):
+    lib = build_flavour(flavour) if link_lib else None  # (takes the lock itself)
+    with _BuildLock():
+        return _build_harness(name, sources, flavour, extra_flags, c_sources, link_lib, defines, lib)
+
+
+def _build_harness(name, sources, flavour, extra_flags, c_sources, link_lib, defines, lib):
     """Compile harness sources (+ optional uninstrumented C sources) and link with the flavour's
     pistache archive. Harness executables are cached on (tree hash, harness source hash)."""
     root = tree_root()
-    lib = build_flavour(flavour) if link_lib else None
     h = hashlib.sha256()
     hdir = os.path.join(VERIF, "harness")
     deps = list(sources) + list(c_sources)
